@@ -277,6 +277,28 @@ def cmdVscalars (m : List (String × String)) : Option String := do
   let pad := 2 * n * cap - 2 * n * mm
   pure s!"static={strOfScalars (staticScalars ps.gi ps.hi pad)} dynamic={strOfScalars (ps.dyn ++ (ps.gb ++ [ps.hb]))}"
 
+/-- the whole chunk as coded: accumulated static vectors, concatenated dynamic scalars, accumulated Pedersen scalars -/
+def cmdBscalars (m : List (String × String)) : Option String := do
+  let nat (k : String) : Option Nat := do (← get m k).toNat?
+  let n ← nat "n"
+  let t ← nat "t"
+  let maxN ← nat "maxN"
+  let pad ← nat "pad"
+  let members ← (splitOn' (← get m "members") "|").mapM (fun s =>
+    match s.splitOn ";" with
+    | [mm, p, r1, s1, d1, y, z, es, e, w] => do
+      let mm ← mm.toNat?
+      let p ← natList p
+      let d1 ← scalarList d1
+      let es ← scalarList es
+      pure (proofScalars n mm t (fun j => ((listFn p j : Nat) : Fl)) (← scalarOfHex r1) (← scalarOfHex s1) (listFn d1)
+              (← scalarOfHex y) (← scalarOfHex z) es (← scalarOfHex e) (← scalarOfHex w))
+    | _ => none)
+  let gi := accumulate maxN (members.map (·.gi))
+  let hi := accumulate maxN (members.map (·.hi))
+  let dyn := (members.map (·.dyn)).flatten ++ (accumulate t (members.map (·.gb)) ++ [(members.map (·.hb)).foldl (· + ·) 0])
+  pure s!"static={strOfScalars (staticScalars gi hi pad)} dynamic={strOfScalars dyn}"
+
 def cmdAscalars (m : List (String × String)) : Option String := do
   let nat (k : String) : Option Nat := do (← get m k).toNat?
   let n ← nat "n"
@@ -334,6 +356,7 @@ def step (line : String) : String :=
       | "fields" => cmdFields m
       | "vscalars" => cmdVscalars m
       | "ascalars" => cmdAscalars m
+      | "bscalars" => cmdBscalars m
       | "encode" => cmdEncode m
       | _ => none
     match r with
